@@ -1062,6 +1062,11 @@ impl WsPeer {
 		}
 	}
 
+	/// the peer never reads again (so it never answers a ping either) but keeps its end of the stream open
+	pub fn stop_reading(&mut self) {
+		self.reader.abort();
+	}
+
 	/// abrupt drop: both halves go away without a close frame
 	pub fn abort(&mut self) {
 		self.raw = None;
